@@ -90,6 +90,9 @@ func genC11(r *Rng, tier string, idx int) *Plan {
 		case x < 32:
 			// ACL DELUSER u racing a login as u on another connection (dice-scheduled at the ACL user-list lock)
 			p.Ops = append(p.Ops, Op{Kind: "race", C: c, S: u, Args: []string{"AUTH", u, Pick(r, c11Pws)}})
+		case x < 36:
+			// ACL LOAD racing SETUSER <u> on|off + SAVE of another administrator (dice-scheduled at the user-list lock)
+			p.Ops = append(p.Ops, Op{Kind: "loadrace", S: Pick(r, []string{"MERGE", "REPLACE"}), Args: []string{u}})
 		case x < 62:
 			pw := Pick(r, append(c11Pws, "wrong"))
 			if r.Chance(0.12) {
@@ -318,6 +321,103 @@ func runC11(t *testing.T, p *Plan) *Outcome {
 				if w.Closed || w.NoReply || accepted {
 					conns[c] = s.NewTCPClient(inst, fmt.Sprintf("g%dc%d.%d", gen, c, i))
 					who[c] = ""
+				}
+			case "loadrace":
+				// Two administrators: one reloads the file, the other flips a user's on/off flag and saves. Whatever the
+				// order, afterwards the user table in memory is the one in the file (SAVE ran after SETUSER on its
+				// connection; a LOAD that ran last read that file), so one more LOAD REPLACE changes nothing.
+				if len(op.Args) != 1 || users[op.Args[0]] == nil {
+					continue
+				}
+				name := op.Args[0]
+				u := users[name]
+				pw := ""
+				for _, cand := range c11Pws {
+					if (u.plain[cand] || u.hashes[sha(cand)]) && pw == "" {
+						pw = cand
+					}
+				}
+				if pw == "" || u.nopass {
+					continue // the flag would not be observable through AUTH
+				}
+				if r := admin.DoSync("ACL", "SAVE"); r.IsError() || r.Panic != "" {
+					fail("save-failed", r.String()+" "+r.Reply.Str)
+					break
+				}
+				saved = map[string]*c11User{}
+				for k, x := range users {
+					saved[k] = x.clone()
+				}
+				admin2 := s.NewTCPClient(inst, fmt.Sprintf("g%dadm2.%d", gen, i))
+				if r := admin2.DoSync("AUTH", "adminpw"); r.IsError() {
+					continue
+				}
+				flag := ifs(u.enabled, "off", "on")
+				ldone, sdone, vstarted, vdone := false, false, false, false
+				var lres, sres, vres Result
+				s.ParkLocks = map[string]bool{"acl.users": true}
+				admin.Start([]string{"ACL", "LOAD", op.S}, func(r Result) { lres, ldone = r, true })
+				admin2.Start([]string{"ACL", "SETUSER", name, flag}, func(r Result) { sres, sdone = r, true })
+				for st := 0; st < 4000 && !(ldone && vdone); st++ {
+					if sdone && !vstarted {
+						vstarted = true
+						admin2.Start([]string{"ACL", "SAVE"}, func(r Result) { vres, vdone = r, true })
+					}
+					parked := s.ParkedTasks()
+					if len(parked) == 0 {
+						s.Settle()
+						if len(s.ParkedTasks()) == 0 && (!sdone || vstarted) {
+							break
+						}
+						continue
+					}
+					tk := parked[dice.Next(len(parked))]
+					s.noteChoice(len(parked), tk.Site)
+					s.Release(tk)
+				}
+				s.DrainAll(2000)
+				s.ParkLocks = nil
+				classes = append(classes, "race:load||setuser+save:"+strings.ToLower(op.S))
+				if admin.SrvPanic != "" || admin2.SrvPanic != "" {
+					fail("panic/race", admin.SrvPanic+admin2.SrvPanic)
+					break
+				}
+				if !ldone || !sdone || !vdone {
+					fail("race/load-never-completed", fmt.Sprintf("step %d: ACL LOAD %s racing ACL SETUSER %s %s + ACL SAVE: load answered %v, setuser %v, save %v", i, op.S, name, flag, ldone, sdone, vdone))
+					break
+				}
+				if lres.IsError() || sres.IsError() || vres.IsError() {
+					fail("race/load-failed", fmt.Sprintf("step %d: ACL LOAD %s racing ACL SETUSER %s %s + ACL SAVE: %s / %s / %s", i, op.S, name, flag, lres.Reply.Str, sres.Reply.Str, vres.Reply.Str))
+					break
+				}
+				pc := s.NewTCPClient(inst, fmt.Sprintf("g%dprobe.%d", gen, i))
+				vector := func() string {
+					var sb strings.Builder
+					for _, n := range []string{"ua", "ub", "uc"} {
+						for _, cand := range c11Pws {
+							r := pc.DoSync("AUTH", n, cand)
+							sb.WriteString(ifs(!r.IsError() && !r.Closed && !r.NoReply, "1", "0"))
+						}
+						sb.WriteString(" ")
+					}
+					return sb.String()
+				}
+				before := vector()
+				if r := admin.DoSync("ACL", "LOAD", "REPLACE"); r.IsError() {
+					fail("load-failed", "ACL LOAD REPLACE: "+r.Reply.Str)
+					break
+				}
+				if after := vector(); after != before {
+					fail("load-race/memory-differs-from-file", fmt.Sprintf("step %d: ACL LOAD %s ran concurrently with ACL SETUSER %s %s + ACL SAVE on another connection, all three acknowledged; logins accepted afterwards (ua ub uc x %v): %s, after one more ACL LOAD REPLACE: %s - the table in memory was not the one in the file, no order of the three commands explains that", i, op.S, name, flag, c11Pws, before, after))
+					break
+				}
+				// which order it was shows in the flag (the file held the old one)
+				if r := pc.DoSync("AUTH", name, pw); (!r.IsError() && !r.Closed && !r.NoReply) != u.enabled {
+					u.enabled = !u.enabled
+				}
+				saved = map[string]*c11User{}
+				for k, x := range users {
+					saved[k] = x.clone()
 				}
 			case "newconn":
 				c := op.C % nconn
